@@ -19,6 +19,8 @@ import (
 	"strings"
 	"sync"
 	"time"
+
+	"github.com/go-openapi/spec/verifrt"
 )
 
 // CheckDef describes one property check.
@@ -110,6 +112,29 @@ func (c *Ctx) Sample(x interface{}) {
 func (c *Ctx) Announce(cs []byte) {
 	if c.caseOut != nil {
 		fmt.Fprintf(c.caseOut, "%d %s\n", c.idx-1, bytes.ReplaceAll(cs, []byte("\n"), []byte(" ")))
+	}
+}
+
+// guardCase (deferred at the top of a per-case function) turns a panic raised while library code is on the
+// stack into a "panic" violation of that case; the harness' own panics pass through (exit 2).
+func (c *Ctx) guardCase(oracle string, cs interface{}, outcome *string) {
+	r := recover()
+	if r == nil {
+		return
+	}
+	switch r.(type) {
+	case harnessBug, verifrt.Divergence, verifrt.BudgetExceeded:
+		panic(r)
+	}
+	buf := make([]byte, 16384)
+	buf = buf[:runtime.Stack(buf, false)]
+	if !strings.Contains(string(buf), "github.com/go-openapi/spec.") {
+		panic(r)
+	}
+	c.Violate(Violation{Oracle: oracle, Class: "panic", Detail: fmt.Sprintf("%v\n%s", r, tail(string(buf), 1500)),
+		Features: map[string]string{"symptom": "panic"}, Case: cs})
+	if outcome != nil {
+		*outcome = "panic"
 	}
 }
 
